@@ -119,14 +119,16 @@ class C03(Prop):
                             cur.execute(f"use database {op['d']}")
                         elif k in ("createsc", "dropsc", "usesc"):
                             n = op["s"] if op["q"] == 2 else f"{op['d']}.{op['s']}"
-                            cur.execute({"createsc": "create schema ", "dropsc": "drop schema ", "usesc": "use schema "}[k] + n)
+                            ine = "if not exists " if op.get("form") == "ine" else ""
+                            cur.execute({"createsc": "create schema " + ine, "dropsc": "drop schema ", "usesc": "use schema "}[k] + n)
                         elif k == "createt":
-                            cur.execute(f"create table {name(op)} (m varchar)")
+                            form = op.get("form", "plain")
+                            cur.execute(f"create {'transient ' if form == 'transient' else ''}table {'if not exists ' if form == 'ine' else ''}{name(op)} (m varchar)")
                             new = [t for t in catalog(raw)[2] if t not in before]
                             for d, s, t in new:  # tag the physical table with its own name
                                 raw.execute(f'insert into "{d}"."{s}"."{t}" values (\'{d}|{s}|{t}\')')
                         elif k == "dropt":
-                            cur.execute(f"drop table {name(op)}")
+                            cur.execute(f"drop table {'if exists ' if op.get('form') == 'ie' else ''}{name(op)}")
                         elif k == "probe":
                             rows = cur.execute(f"select m from {name(op)}").fetchall()
                             if len(rows) == 1 and isinstance(rows[0][0], str) and rows[0][0].count("|") == 2:
